@@ -77,10 +77,16 @@ def run_one(rng, counters, tier):
             new = []
             for r in sim.doc.records:
                 if rng.random() < 0.15:
-                    kind = rng.choice(["symbolic", "noalt", "dup"])
-                    ref, alts = (r["ref"], [rng.choice([b for b in "ACGT" if b != r["ref"]])]) if kind == "dup" else gvcf.random_ref_alt(rng, kind)
+                    kind = rng.choice(["symbolic", "noalt", "dup", "mixeddup"])
+                    if kind == "mixeddup":
+                        # a multi-ALT record (one SNV allele, one longer allele) in front of the variant at the same position
+                        ref, alts = r["ref"], [rng.choice([b for b in "ACGT" if b != r["ref"]]), r["ref"] + "TT"]
+                        if rng.random() < 0.5:
+                            alts.reverse()
+                    else:
+                        ref, alts = (r["ref"], [rng.choice([b for b in "ACGT" if b != r["ref"]])]) if kind == "dup" else gvcf.random_ref_alt(rng, kind)
                     calls = [{"GT": "/".join(["0"] * P), "GQ": "30"} for _ in sim.doc.samples]
-                    x = {"chrom": r["chrom"], "pos": r["pos"], "id": ".", "ref": ref[:1] if kind != "dup" else ref, "alts": alts, "qual": ".", "filter": ".", "info": ".",
+                    x = {"chrom": r["chrom"], "pos": r["pos"], "id": ".", "ref": ref[:1] if kind not in ("dup", "mixeddup") else ref, "alts": alts, "qual": ".", "filter": ".", "info": ".",
                          "fmt": ["GT", "GQ"], "calls": calls, "kind": kind}
                     if kind == "dup":
                         new.append(r)
